@@ -30,6 +30,7 @@ fn keep_for(prop: &str) -> Keep {
         "C15" => Keep { servers: true, ..none },
         "C17" => Keep { ops: true, schemas: true, docs: true, ..none },
         "C04" => Keep { schemas: true, types: true, flags: true, ..none },
+        "C03" => Keep { ops: true, param_shape: true, ..none },
         _ => Keep { docs: true, types: true, flags: true, ops: true, schemas: true, servers: true, security: true, param_shape: true },
     }
 }
@@ -359,6 +360,7 @@ pub fn run(prop: &str, tier: &str, seed: u64, out: &str) {
             "C08" => oracle_c08_collect(&mut rep, c, spec, h, &mut extra_reqs, &mut extra_meta, i),
             "C07" => oracle_c07(&mut rep, c, spec, h),
             "C05" => oracle_c05(&mut rep, c, spec, h),
+            "C03" => oracle_c03_targets(&mut rep, c, spec, h),
             "C06" => oracle_c06(&mut rep, c, spec, h),
             "C15" => oracle_c15(&mut rep, c, spec, h),
             "C14" => oracle_c14(&mut rep, c, spec, h),
@@ -466,9 +468,9 @@ fn oracle_c08_collect(rep: &mut Report, c: &Case, spec: &openapiv3::OpenAPI, h: 
     // parameter, body-property and result positions
     for (path, method, op, item) in spec.operations() {
         let Some(ho) = h.operations.iter().find(|o| o.path == path && o.method == method) else { rep.oracle_fail("operationMissing", vec![], &case_text(c), &format!("{method} {path}")); continue };
-        let own: Vec<String> = op.parameters.iter().filter_map(|p| p.as_item().map(|p| p.data.name.clone())).collect();
+        let own: Vec<String> = op.parameters.iter().filter_map(|p| p.resolve(spec).ok().map(|p| p.data.name.clone())).collect();
         for (i, p) in op.parameters.iter().chain(item.parameters.iter()).enumerate() {
-            let Some(p) = p.as_item() else { continue };
+            let Ok(p) = p.resolve(spec) else { continue };
             // a path-item parameter re-declared by the operation is overridden
             if i >= op.parameters.len() && own.contains(&p.data.name) { continue; }
             let Some(sch) = p.data.schema() else { continue };
@@ -620,6 +622,19 @@ fn oracle_c07(rep: &mut Report, c: &Case, spec: &openapiv3::OpenAPI, h: &hir::Hi
         let arr_inline = s["type"] == "array" && s["items"].get("$ref").is_none() && s["items"].is_object();
         rep.oracle_fail("reachableRemoved", if arr_inline { vec!["arrayComponentInlineItemsReferenced".to_string()] } else { vec![] }, &case, &format!("component {n} is referenced from operations (directly or through members; via {}) but was pruned", via.get(n).cloned().unwrap_or_default()));
     }
+    // 3a. a retained object component still is that component: a struct with exactly its declared properties
+    for (n, s) in &comps {
+        if s["type"] != json!("object") || s.get("allOf").is_some() { continue; }
+        let Some(props) = s["properties"].as_object() else { continue };
+        if props.is_empty() { continue; }
+        let Some(r) = h.schemas.get(n) else { continue };
+        let want: BTreeSet<&String> = props.keys().collect();
+        let ok = match r { hir::Record::Struct(st) => st.fields.keys().collect::<BTreeSet<_>>() == want, _ => false };
+        if !ok {
+            let clash = n.ends_with("Response");
+            rep.oracle_fail("componentReplaced", if clash { vec!["inlineResponseNameClash".to_string()] } else { vec![] }, &case, &format!("component {n} declares properties {:?} but the schema of that name is {}", want, specio::record(r)));
+        }
+    }
     // 3. invented names never replace a component: compare with the extraction of the components alone
     let mut only = doc.clone();
     only["paths"] = json!({});
@@ -641,6 +656,26 @@ fn oracle_c07(rep: &mut Report, c: &Case, spec: &openapiv3::OpenAPI, h: &hir::Hi
 
 pub fn count_operations(doc: &Value) -> usize {
     doc["paths"].as_object().map(|p| p.values().map(|item| ["get", "put", "post", "delete", "options", "head", "patch", "trace"].iter().filter(|m| item.get(**m).is_some()).count()).sum()).unwrap_or(0)
+}
+
+// ---- C03, extraction half: every (path, verb) of the document is an operation with exactly that verb and path template,
+// and every declared non-body input keeps its exact name and location
+fn oracle_c03_targets(rep: &mut Report, c: &Case, spec: &openapiv3::OpenAPI, h: &hir::HirSpec) {
+    let case = case_text(c);
+    for (path, method, op, item) in spec.operations() {
+        let Some(ho) = h.operations.iter().find(|o| o.path == path && o.method == method) else {
+            rep.oracle_fail("operationTargetChanged", vec![], &case, &format!("{method} {path}: no operation of the interface has this verb and path template (paths: {:?})", h.operations.iter().map(|o| format!("{} {}", o.method, o.path)).collect::<Vec<_>>()));
+            continue;
+        };
+        let Some(decl) = declared_inputs(spec, op, item) else { continue };
+        for (n, l, _) in &decl {
+            if l == "body" { continue; }
+            if !ho.parameters.iter().any(|p| &p.name == n && specio::loc(&p.location) == l) && !decl.iter().any(|(m, k, _)| m == n && k != l) {
+                rep.oracle_fail("inputNameOrLocationChanged", vec![], &case, &format!("{method} {path}: declared {l} input {n} is not an input of the operation under that name and location"));
+            }
+        }
+        rep.bump("c03_operations_checked");
+    }
 }
 
 // ---- C05 oracle --------------------------------------------------------------------------------
@@ -729,6 +764,35 @@ fn oracle_c05(rep: &mut Report, c: &Case, spec: &openapiv3::OpenAPI, h: &hir::Hi
 
 // ---- C06 oracle --------------------------------------------------------------------------------
 
+/// the documented rule for the name of an operation without operationId: verb, the non-placeholder segments
+/// joined by `_`, and `_by_<last placeholder>` (with the previous segment's name stripped from its front)
+pub fn documented_synth_name(method: &str, path: &str) -> String {
+    let names: Vec<&str> = path.split('/').filter(|s| !s.starts_with('{')).collect();
+    let last_group = path.split('/').filter(|s| s.starts_with('{') && s.len() >= 2).last().map(|s| {
+        let mut param = &s[1..s.len() - 1];
+        if let Some(name) = names.last() { if param.starts_with(name) && param.len() > name.len() { param = &param[name.len() + 1..]; } }
+        format!("_by_{param}")
+    }).unwrap_or_default();
+    format!("{method}{}{last_group}", names.join("_"))
+}
+
+/// the recorded C06 finding: two operations without operationId whose *documented* names already coincide
+/// (after the case conversion every name goes through)
+pub fn documented_synth_clash(doc: &Value) -> bool {
+    use convert_case::{Case, Casing};
+    let mut seen = BTreeSet::new();
+    let Some(paths) = doc["paths"].as_object() else { return false };
+    for (path, item) in paths {
+        for m in ["get", "put", "post", "delete", "options", "head", "patch", "trace"] {
+            let Some(op) = item.get(m) else { continue };
+            if op.get("operationId").is_some() { continue; }
+            let n: String = documented_synth_name(m, path).to_case(Case::Pascal).to_case(Case::Snake);
+            if !seen.insert(n) { return true; }
+        }
+    }
+    false
+}
+
 fn oracle_c06(rep: &mut Report, c: &Case, spec: &openapiv3::OpenAPI, h: &hir::HirSpec) {
     use mir_rust::ToRustIdent;
     let case = case_text(c);
@@ -745,7 +809,7 @@ fn oracle_c06(rep: &mut Report, c: &Case, spec: &openapiv3::OpenAPI, h: &hir::Hi
                 if other != me {
                     // trigger: both names were synthesised from verb and path (no operationId)
                     let synth = |who: &str| { let mut it = who.splitn(2, ' '); let (m, p) = (it.next().unwrap_or(""), it.next().unwrap_or("")); spec.operations().any(|(pp, mm, op, _)| pp == p && mm == m && op.operation_id.is_none()) };
-                    let trig = if synth(&other) && synth(&me) { vec!["synthNameCollision".to_string()] } else { vec![] };
+                    let trig = if synth(&other) && synth(&me) && documented_synth_clash(&c.doc) { vec!["synthNameCollision".to_string()] } else { vec![] };
                     rep.oracle_fail("nameCollision", trig, &case, &format!("{key} is produced by both `{other}` and `{me}`"));
                 }
             }
